@@ -227,15 +227,36 @@ func (g *typeGen) fill(v reflect.Value, depth int, mode string) {
 	full := mode == "full"
 	switch v.Kind() {
 	case reflect.Int, reflect.Int8, reflect.Int16, reflect.Int32, reflect.Int64:
-		if full {
+		switch {
+		case r.Intn(4) == 0:
+			// boundary values of the field's width (a value that only fits the full width shows a
+			// read or conversion through a narrower type)
+			bits := uint(v.Type().Bits())
+			max := int64(1)<<(bits-1) - 1
+			v.SetInt([]int64{max, -max - 1, max / 2, 127, 128, 255, 256, 32767, 32768, 65535, 65536, -129, -32769}[r.Intn(13)] % (max + 1))
+			if full && v.Int() == 0 {
+				v.SetInt(max)
+			}
+		case full:
 			v.SetInt(int64(1 + r.Intn(5)))
-		} else {
+		default:
 			v.SetInt(int64(r.Intn(5) - 1))
 		}
 	case reflect.Uint, reflect.Uint8, reflect.Uint16, reflect.Uint32, reflect.Uint64:
-		if full {
+		switch {
+		case r.Intn(4) == 0:
+			bits := uint(v.Type().Bits())
+			max := uint64(1)<<(bits-1)*2 - 1
+			if bits == 64 {
+				max = 1<<63 - 1 // simple data has int64 only: larger values are not generated
+			}
+			v.SetUint([]uint64{max, max / 2, max/2 + 1, 255, 256, 257, 65535, 65536, 4294967295, 4294967296}[r.Intn(10)] % (max + 1))
+			if full && v.Uint() == 0 {
+				v.SetUint(max)
+			}
+		case full:
 			v.SetUint(uint64(1 + r.Intn(4)))
-		} else {
+		default:
 			v.SetUint(uint64(r.Intn(4)))
 		}
 	case reflect.Float32, reflect.Float64:
